@@ -405,6 +405,82 @@ def check_null(ck, prog):
     ck.floor("C04-NULL", 40, "obligations")
 
 
+def check_allocsz(ck, prog):
+    """Allocation sizes of the form  C1 + n * C2  where n comes from the input: n must be clamped to a constant K with
+    C1 + K * C2 <= SIZE_MAX, otherwise the multiplication wraps and a tiny block is allocated for n records."""
+    ck.rule("C04-ALLOCSZ", "input-controlled element counts are clamped so that the allocation size cannot wrap")
+    SIZE_MAX = (1 << 64) - 1
+    n = 0
+    for f in sorted(prog.all_functions("liblzma"), key=lambda f: (f.file, f.line)):
+        if not f.blocks:
+            continue
+        for b, i, e in f.iter_elems():
+            for c in ex.calls(e, into_refs=False):
+                if c.get("fn") not in ("lzma_alloc", "lzma_alloc_zero") or not c["args"]:
+                    continue
+                a = ex.strip(c["args"][0])
+                # C1 + (X * C2)  /  X * C2
+                c1, mul = 0, a
+                if a is not None and a.get("k") == "bin" and a["op"] == "+":
+                    l, r = ex.strip(a["l"]), ex.strip(a["r"])
+                    if ex.const_val(l) is not None:
+                        c1, mul = ex.const_val(l), r
+                    elif ex.const_val(r) is not None:
+                        c1, mul = ex.const_val(r), l
+                    else:
+                        continue
+                if mul is None or mul.get("k") != "bin" or mul["op"] != "*":
+                    continue
+                l, r = ex.strip(mul["l"]), ex.strip(mul["r"])
+                if ex.const_val(r) is not None and ex.const_val(l) is None:
+                    x, c2 = l, ex.const_val(r)
+                elif ex.const_val(l) is not None and ex.const_val(r) is None:
+                    x, c2 = r, ex.const_val(l)
+                else:
+                    continue
+                if x.get("k") != "mem":
+                    continue            # locals are covered by the guards of C04-BUF / C09
+                fld = x["f"]
+                # clamps: `v > K` ... `v = K` in a function that stores v into that member
+                bound = None
+                for g in prog.all_functions("liblzma"):
+                    if not g.blocks:
+                        continue
+                    stores = [ex.strip(r_) for b2, i2, e2 in g.iter_elems() for (l_, r_, op_, n_) in ex.writes(e2)
+                              if ex.field_key(l_) == (x.get("rec"), fld) and r_ is not None and op_ == "="]
+                    for sv in stores:
+                        if sv is None or sv.get("k") != "var":
+                            if sv is not None and ex.const_val(sv) is not None:
+                                bound = max(bound or 0, ex.const_val(sv))
+                            continue
+                        ks = [ex.const_val(ex.strip(bb.term["cond"])["r"]) for bb in g.blocks.values()
+                              if bb.term and "cond" in bb.term and ex.strip(bb.term["cond"]).get("k") == "bin"
+                              and ex.strip(bb.term["cond"])["op"] == ">" and ex.show(ex.strip(bb.term["cond"])["l"]) == sv["n"]
+                              and ex.const_val(ex.strip(bb.term["cond"])["r"]) is not None]
+                        if ks:
+                            bound = max(bound or 0, min(ks))
+                        else:
+                            bound = SIZE_MAX if bound is None else max(bound, SIZE_MAX)
+                if bound is None or bound == SIZE_MAX:
+                    # no clamp found: the member's own type bounds it
+                    rec_ = prog.records.get(x.get("rec")) or {"fields": []}
+                    for fd_ in rec_["fields"]:
+                        if fd_["n"] == fld and (fd_.get("ty") or "").replace("const ", "") in ("uint32_t", "unsigned int"):
+                            bound = 0xFFFFFFFF
+                        elif fd_["n"] == fld and (fd_.get("ty") or "").replace("const ", "") in ("uint16_t", "uint8_t"):
+                            bound = 0xFFFF
+                n += 1
+                ck.saw_function(f)
+                ok = bound is not None and c1 + bound * c2 <= SIZE_MAX
+                ck.ob("C04-ALLOCSZ", "%s:%s" % (f.name, fld), ok, common.where(f, c),
+                      "%s: lzma_alloc(%d + %s * %d): %s is clamped to %s, so the size is at most %#x" % (
+                          f.name, c1, fld, c2, fld, bound, c1 + (bound or 0) * c2) if ok else
+                      "%s(): lzma_alloc(%d + %s * %d) with %s clamped only to %s: %d + %s * %d exceeds SIZE_MAX, the size "
+                      "wraps to a few bytes and the records are written past the end of the block" % (
+                          f.name, c1, fld, c2, fld, bound, c1, bound, c2), key="ALLOCSZ:%s:%s" % (f.name, fld))
+    ck.floor("C04-ALLOCSZ", 1)
+
+
 def run(ck):
     ck.explanation = (
         "Bounds-fact availability (must-dataflow on the path-sensitive product graph) for every streaming "
@@ -422,3 +498,4 @@ def run(ck):
     check_ret(ck, prog)
     check_cast(ck, prog)
     check_null(ck, prog)
+    check_allocsz(ck, prog)
